@@ -10,6 +10,11 @@ ID="$1"; TIER="${2:-quick}"
 REPO="${VERIF_REPO:-/repo}"
 ./build.sh >&2 || { echo "checker build failed"; echo "VIOLATION property=$ID replay=/verif/evidence/$ID.violation.txt"; exit 1; }
 mkdir -p evidence
+rm -f "evidence/$ID.sensitivity.json"
+if [ "$TIER" = "thorough" ]; then
+  # sensitivity of the rule set: seeded breaking changes analysed on scratch copies (informational)
+  ./sensitivity.sh "$ID" || true
+fi
 ./bin/rsyncverif -repo "$REPO" -verif "$(pwd)" -prop "$ID" -tier "$TIER"
 rc=$?
 if [ $rc -ne 0 ] && [ $rc -ne 1 ]; then
